@@ -49,6 +49,7 @@ type poolRun struct {
 	stopCalls []int
 	cancels   []int // moments at which the context given to Run was cancelled
 	runRets   []int
+	runCalls  []int
 	deferred  int
 	cands     []int
 	idleAt    int
@@ -95,6 +96,7 @@ func runPool(c PoolCase, count bool) *poolRun {
 			switch op.K {
 			case "run":
 				rctx, cancel := context.WithCancel(ctx)
+				res.runCalls = append(res.runCalls, tick())
 				p.Run(rctx)
 				if !dead { // a pool whose Run context was cancelled stays dead until it has been stopped
 					running = true
@@ -280,9 +282,13 @@ func judgePool(c PoolCase, pr *poolRun) *ev.Result {
 			for i, sr := range pr.stopRets {
 				// a job that started before Stop was called must have finished when Stop returns;
 				// no job may start after a Stop returned (unless the pool was run again)
+				// (the pool counts as run again from the moment Run was CALLED after that Stop: Run starts the
+				// workers before it returns, and a Send that meets them is accepted - found by the thorough
+				// tier at three forced preemptions, where a job of the new generation started before the
+				// second Run had returned)
 				rerun := false
-				for _, rr := range pr.runRets {
-					if rr > sr && rr < st {
+				for _, rc := range pr.runCalls {
+					if rc > sr && rc < st {
 						rerun = true
 					}
 				}
